@@ -292,6 +292,36 @@ pub fn reg_is_live(serial: u32) -> bool {
     with(|e| e.reg.get(serial as usize) == Some(&1))
 }
 
+/// Registry length (index of the next element to be constructed).
+pub fn reg_len() -> usize {
+    with(|e| e.reg.len())
+}
+
+/// Forgive intentional leaks (mem::forget probes): elements constructed at
+/// registry index >= `reg_from` and blocks allocated at index >= `block_from`
+/// that are still live are marked as leaked-on-purpose.
+pub fn forgive_from(reg_from: usize, block_from: usize) {
+    with(|e| {
+        for s in e.reg.iter_mut().skip(reg_from) {
+            if *s == 1 {
+                *s = 3;
+                e.live_elems -= 1;
+            }
+        }
+        let mut bytes = 0;
+        for b in e.blocks.iter_mut().skip(block_from) {
+            if b.live {
+                b.live = false;
+                bytes += b.size;
+                // keep the memory mapped and un-poisoned: leaked memory is never touched again,
+                // so fill it with the free poison to detect later writes
+                unsafe { std::ptr::write_bytes(b.user, 0xDD, b.size) };
+            }
+        }
+        e.live_bytes -= bytes;
+    });
+}
+
 /// Number of live (constructed, not yet dropped) tracked elements.
 pub fn reg_live_count() -> usize {
     with(|e| e.live_elems)
